@@ -61,3 +61,12 @@ package krpc
 //@   ensures a-malformed-list-is-an-error: recorded("unmarshalerr") == nil && typeis(_v, "[]interface{}") && !errlist(_v) ==> err != nil
 //@   ensures a-string-is-the-message: recorded("unmarshalerr") == nil && typeis(_v, string) ==> err == nil && e.Msg == unbox(_v, string)
 //@   ensures anything-else-is-an-error: recorded("unmarshalerr") == nil && !typeis(_v, "[]interface{}") && !typeis(_v, string) ==> err != nil
+
+//@ func (dht/krpc.NodeAddr).MarshalBinary
+//@   modifies *
+//@   ensures never-fails: result1 == nil
+//@   ensures length: len(result0) == len(me.IP) + 2
+//@   ensures ip-bytes: forall k int :: 0 <= k && k < len(me.IP) ==> result0[k] == old(me.IP[k])
+//@   ensures port-high-byte: result0[len(me.IP)] == uint8(uint16(me.Port) >> 8)
+//@   ensures port-low-byte: result0[len(me.IP) + 1] == uint8(uint16(me.Port))
+//@ lemma port-round-trip: forall p uint16 :: (int(uint8(p >> 8)) << 8 | int(uint8(p))) == int(p)
